@@ -187,7 +187,20 @@ fn gen_literal_text(t: &mut Tape) -> String {
     let dec = ['0', '1', '2', '9', '_', '5'];
     let hex = ['0', 'f', 'F', '9', '_', 'a', 'g'];
     let bin = ['0', '1', '_', '2'];
-    let lit = match t.below(10) {
+    let lit = match t.below(12) {
+        10 | 11 => {
+            // a long statement full of multi-byte characters that fails AFTER parsing: the error
+            // message quotes the source (every byte alignment of the quoted span is reached)
+            let n = t.below(220);
+            let body: String = (0..n).map(|_| *t.pick(&["a", "é", "κ", "∑", "😀", " ", "ß", "日", "x"])).collect();
+            let pad = " ".repeat(t.below(5));
+            return match t.below(4) {
+                0 => format!("let{pad} message = \"{body}\" + 1;"),
+                1 => format!("fn f() -> int {{{pad} \"{body}\" }}"),
+                2 => format!("let x = undefined_name_1; // {body}\nlet y ={pad} \"{body}\".no_such_method();"),
+                _ => format!("let x = [\"{body}\",{pad} 1];"),
+            };
+        }
         0 => digits(t, 1, 60, &dec),
         1 => format!("0x{}", digits(t, 0, 40, &hex)),
         2 => format!("0b{}", digits(t, 0, 140, &bin)),
@@ -418,7 +431,25 @@ fn run_behaviour(t: &mut Tape, ctx: &mut Ctx) -> Result<CaseOutcome, HarnessErro
     let scripts: Vec<&String> = c.iter().filter(|s| s.contains("fn main()")).collect();
     let text = if scripts.is_empty() || t.below(4) == 0 { gen_mutation(t) } else { (*t.pick(&scripts)).clone() };
     let uses_effects = ["random", "shuffle", "sample", "now(", "sleep", "regex"].iter().any(|k| text.contains(k));
-    let others: Vec<String> = (0..t.below(4)).map(|_| gen_mutation(t)).collect();
+    // compilations that precede the second compilation of the program: mutated scripts, and texts
+    // that fail half-way through a phase (state left behind by a failed compilation must not leak)
+    const POISON: &[&str] = &[
+        "let s = \"chapter one\\qtwo\";",
+        "let f = f\"left{1}right\\q\";",
+        "let q = 'it\\z';",
+        "let n = 0x_;",
+        "let z = item99999999999;",
+        "let a = \"unterminated",
+        "struct Half(a: int\nlet b = 1;",
+        "fn f(x: int) -> int { x + \"s\" }",
+        "let u = \"\\u{d800} tail\";",
+        "let j = join([\"a\", \"b\"], \"sep\\q\");",
+    ];
+    let fresh_std = t.bool();
+    let mut others: Vec<String> = (0..t.below(4)).map(|_| gen_mutation(t)).collect();
+    for _ in 0..t.below(4) {
+        others.push(t.pick(POISON).to_string());
+    }
     let mut o = CaseOutcome {
         key: fnv(text.as_bytes()),
         classes: vec!["family:behaviour".into()],
@@ -431,6 +462,9 @@ fn run_behaviour(t: &mut Tape, ctx: &mut Ctx) -> Result<CaseOutcome, HarnessErro
         j.srcs.extend(pre.iter().cloned());
         // other compilations first (fresh scopes), then the program in the pristine scope
         j.steps = (0..pre.len()).map(|i| Step::CompileFresh { src: i + 1 }).collect();
+        if fresh_std && !pre.is_empty() {
+            j.steps.push(Step::NewStdScope);
+        }
         j.steps.push(Step::Compile { src: 0 });
         j.steps.push(Step::Instantiate);
         j.steps.push(Step::Run { name: "main".into() });
